@@ -129,7 +129,59 @@ def run_shard(spec):
             else:
                 M = L + [L[i]]; name = "duplicate-to-end"
             st.check_pair(L, M, name + "@long")
+    consensus_lane(st, rng, 150 if tier == "quick" else 4000)
     return st.result()
+
+
+def consensus_lane(st, rng, n):
+    """the header commitment as the node computes and checks it: consensus.calc_merkle_root_hash(transactions) and the
+    merkle check of validate_block_by_itself, called on pairs of transaction lists one after the other (same reward
+    transaction, same length, other transactions substituted / reordered) -- the commitment is a function of the ordered
+    id list alone, whatever was computed before"""
+    import skepticoin.consensus as cons
+    import skepticoin.datatypes as dt
+    from skv import objgen
+    g = objgen.Gen()
+    for _ in range(n):
+        k = rng.choice([2, 3, 4, 5, 8])
+        cb = g.transaction(rng)
+        txs = [cb] + [g.transaction(rng) for _i in range(k - 1)]
+        ids = [t.hash() for t in txs]
+        if len(set(ids)) != len(ids):
+            continue
+        r1 = cons.calc_merkle_root_hash(txs)
+        st.c_extra["consensus_commitments"] = st.c_extra.get("consensus_commitments", 0) + 1
+        if r1 != ref.merkle_root(ids):
+            st.v("header-commitment-is-not-the-merkle-root-of-the-ids", "calc_merkle_root_hash differs from the fold of the ids (first call)",
+                 {"list": [x.hex() for x in ids]})
+        mode = rng.choice(["substitute", "swap", "rotate"])
+        ed = list(txs)
+        if mode == "substitute":
+            ed[rng.randrange(1, k)] = g.transaction(rng)
+        elif mode == "swap" and k >= 3:
+            i, j = rng.sample(range(1, k), 2)
+            ed[i], ed[j] = ed[j], ed[i]
+        else:
+            ed = [ed[0]] + ed[2:] + ed[1:2]
+        ids2 = [t.hash() for t in ed]
+        if ids2 == ids or len(set(ids2)) != len(ids2):
+            continue
+        r2 = cons.calc_merkle_root_hash(ed)
+        st.pairs += 1
+        st.by_edit["consensus-" + mode] = st.by_edit.get("consensus-" + mode, 0) + 1
+        st.digests.add(digest(b"".join(ids), b"".join(ids2), "cons"))
+        w = {"list": [x.hex() for x in ids], "edited": [x.hex() for x in ids2], "edit": "consensus-" + mode, "lane": "consensus"}
+        if r2 == r1:
+            st.v("different-lists-same-root:consensus-" + mode, "header commitment unchanged after %s of a non-reward transaction "
+                 "(same reward transaction, same length, computed right after the original list)" % mode, w)
+        if r2 != ref.merkle_root(ids2):
+            st.v("header-commitment-is-not-the-merkle-root-of-the-ids", "calc_merkle_root_hash of the edited list differs from the "
+                 "fold of its ids (computed right after the original list)", w)
+        # and the check itself: a header carrying the original root over the edited list must be refused
+        summary = dt.BlockSummary(1, b"\x00" * 32, r1, 5, b"\xff" * 32, 0)
+        blk = dt.Block(dt.BlockHeader(summary, dt.PowEvidence(b"\x00" * 32, b"\x00" * 32, b"\x00" * 32)), ed)
+        if blk.header.summary.merkle_root_hash == cons.calc_merkle_root_hash(blk.transactions):
+            st.v("stale-commitment-accepted-for-edited-list", "merkle check passes for a block whose transactions were edited", w)
 
 
 class State:
@@ -143,6 +195,7 @@ class State:
         self.fold_nodes = [0]
         self.digests = set()
         self.by_edit = {}
+        self.c_extra = {}
         self.samples = []
 
     def v(self, key, msg, w):
@@ -208,7 +261,7 @@ class State:
         return {"evaluations": self.pairs + self.proofs, "digests": sorted(self.digests), "violations": self.viol,
                 "counters": {"list_pairs_compared": self.pairs, "edits_yielding_identical_list_skipped": self.identical,
                              "base_lists": self.lists, "proofs_checked": self.proofs,
-                             "proof_nodes_folded": self.fold_nodes[0], "pairs_by_edit": self.by_edit},
+                             "proof_nodes_folded": self.fold_nodes[0], "pairs_by_edit": self.by_edit, **self.c_extra},
                 "samples": self.samples, "exhaustive": True}
 
 
@@ -221,6 +274,7 @@ def finalize(m, tier):
                 "proofs by content digest; non-trivial = edited list differs from the base",
         "floors": [("list_pairs_compared", c.get("list_pairs_compared", 0), 5000),
                    ("proofs_checked", c.get("proofs_checked", 0), 500),
-                   ("duplicate-last pairs", c.get("pairs_by_edit", {}).get("duplicate-last", 0), 100)],
+                   ("duplicate-last pairs", c.get("pairs_by_edit", {}).get("duplicate-last", 0), 100),
+                   ("consensus_commitments", c.get("consensus_commitments", 0), 500)],
         "extra": {"exhaustive_bound": "all single edits of the listed kinds for every base list of length 1..10"},
     }
